@@ -1,0 +1,54 @@
+//go:build verif
+// +build verif
+
+// Contracts for the deductive verifier in /verif (govc). Comment-only: this file adds no code.
+
+package iohelper
+
+// ---- C18: SectionWriter ----
+// ncalls()/callarg(k,i)/callret(k,i) talk about the log of calls made to the underlying
+// io.WriterAt since function entry (argument 0 is the receiver, 1 the buffer, 2 the offset).
+
+//@ func NewSectionWriter returns (s)
+//@   requires 0 <= off && 0 <= n && off <= 0x7fffffffffffffff - n
+//@   ensures swInv(s) && s.w == w && s.base == off && s.off == off && s.limit == off + n
+//@   ensures ncalls() == 0
+//@   assigns nothing
+
+//@ func AtToWriter returns (r)
+//@   requires 0 <= offset
+//@   ensures ncalls() == 0
+//@   ensures swInv(r) && r.w == w && r.base == offset && r.off == offset && r.limit == 0x7fffffffffffffff
+//@   assigns nothing
+
+//@ func SectionWriter.Size returns (r)
+//@   requires swInv(s)
+//@   ensures r == s.limit - s.base && ncalls() == 0
+//@   assigns nothing
+
+//@ func SectionWriter.Write returns (n, err)
+//@   requires swInv(s)
+//@   ensures swInv(s) && s.base == old(s.base) && s.limit == old(s.limit) && s.w == old(s.w)
+//@   ensures old(s.off) >= s.limit ==> ncalls() == 0 && n == 0 && err == io.ErrShortWrite && s.off == old(s.off)
+//@   ensures old(s.off) < s.limit ==> ncalls() == 1 && callarg(0, 0) == s.w && callarg(0, 2) == old(s.off) && sameslice(callarg(0, 1), p[:ite(int64(len(p)) > s.limit - old(s.off), int(s.limit - old(s.off)), len(p))])
+//@   ensures old(s.off) < s.limit ==> ncalls() == 1 && s.base <= callarg(0, 2) && callarg(0, 2) + int64(len(callarg(0, 1))) <= s.limit
+//@   ensures old(s.off) < s.limit ==> ncalls() == 1 && n == callret(0, 0) && s.off == old(s.off) + int64(n)
+//@   ensures old(s.off) < s.limit ==> ncalls() == 1 && err == ite(callret(0, 1) != nil, callret(0, 1), ite(int64(len(p)) > s.limit - old(s.off), io.ErrShortWrite, nil))
+//@   assigns s.off
+
+//@ func SectionWriter.WriteAt returns (n, err)
+//@   requires swInv(s)
+//@   ensures (off < 0 || off >= s.limit - s.base) ==> ncalls() == 0 && n == 0 && err == io.ErrShortWrite
+//@   ensures !(off < 0 || off >= s.limit - s.base) ==> ncalls() == 1 && callarg(0, 0) == s.w && callarg(0, 2) == s.base + off && sameslice(callarg(0, 1), p[:ite(int64(len(p)) > s.limit - s.base - off, int(s.limit - s.base - off), len(p))])
+//@   ensures !(off < 0 || off >= s.limit - s.base) ==> ncalls() == 1 && s.base <= callarg(0, 2) && callarg(0, 2) + int64(len(callarg(0, 1))) <= s.limit
+//@   ensures !(off < 0 || off >= s.limit - s.base) ==> ncalls() == 1 && n == callret(0, 0)
+//@   ensures !(off < 0 || off >= s.limit - s.base) ==> ncalls() == 1 && err == ite(callret(0, 1) != nil, callret(0, 1), ite(int64(len(p)) > s.limit - s.base - off, io.ErrShortWrite, nil))
+//@   assigns nothing
+
+//@ func SectionWriter.Seek returns (pos, err)
+//@   requires swInv(s)
+//@   ensures ncalls() == 0 && swInv(s) && s.base == old(s.base) && s.limit == old(s.limit)
+//@   ensures !(whence == 0 || whence == 1 || whence == 2) ==> pos == 0 && err == errWhence && s.off == old(s.off)
+//@   ensures (whence == 0 || whence == 1 || whence == 2) && seekTarget(s.base, old(s.off), s.limit, offset, whence) < s.base ==> pos == 0 && err == errOffset && s.off == old(s.off)
+//@   ensures (whence == 0 || whence == 1 || whence == 2) && seekTarget(s.base, old(s.off), s.limit, offset, whence) >= s.base ==> err == nil && s.off == seekTarget(s.base, old(s.off), s.limit, offset, whence) && pos == s.off - s.base
+//@   assigns s.off
